@@ -1,4 +1,5 @@
 import RustbusModel.Lemmas.RpcRun
+import RustbusModel.Lemmas.RpcAvail
 /-!
 C14 — RpcConn delivers every accepted message exactly once to the right consumer.
 
@@ -230,6 +231,38 @@ theorem wait_blocked_only_when_drained (st st' : State) (k : Consumer)
     (h : wait st k = some (none, st')) : st'.wire = [] :=
   waitLoop_blocked_drained k _ st st' (Nat.lt_succ_self _) h
 
+/-- **Availability.** A message that is already stored for a consumer - the oldest signal, the oldest call, the reply or
+    error filed under the serial asked for - is handed out by the very next `try_get_*` / `wait_*` of that consumer:
+    without reading the socket, without writing anything, whatever else is stored or queued. -/
+theorem stored_message_is_returned (st : State) (k : Consumer) (m : Msg) (h : stored st k = some m) :
+    (tryGet st k).1 = some m ∧ wait st k = some (some m, (tryGet st k).2) ∧
+    (tryGet st k).2.wire = st.wire ∧ (tryGet st k).2.sent = st.sent := by
+  have ht : (tryGet st k).1 = some m := by rw [tryGet_is_stored, h]
+  refine ⟨ht, ?_, ?_, ?_⟩
+  · unfold wait
+    simp only [waitLoop]
+    cases hh : tryGet st k with
+    | mk r st' =>
+      rw [hh] at ht
+      simp only at ht
+      subst ht
+      rfl
+  · cases k <;> simp only [tryGet] <;> split <;> rfl
+  · cases k <;> simp only [tryGet] <;> split <;> rfl
+
+/-- **A blocked wait means absence.** A `wait_*` that reports "would block" has read everything that was in the socket
+    (`wait_blocked_only_when_drained`) and nothing for its consumer is stored: the message it waits for has not arrived, or
+    was rejected by the filter. -/
+theorem blocked_wait_means_absent (st st' : State) (k : Consumer) (h : wait st k = some (none, st')) :
+    stored st' k = none ∧ st'.wire = [] :=
+  ⟨waitLoop_blocked_absent k _ st st' (Nat.lt_succ_self _) h, wait_blocked_only_when_drained st st' k h⟩
+
+-- non-vacuity: a reply filed under serial 5 next to another one and a queued signal
+def exStored : State :=
+  State.mk [] [] [(6, Msg.mk 4 .error 13 (some 6) none true), (5, Msg.mk 3 .reply 12 (some 5) none true)]
+    [Msg.mk 1 .signal 10 none none true] []
+example : stored exStored (.response 5) = some (Msg.mk 3 .reply 12 (some 5) none true) := by decide
+
 /-! ### non-vacuity: a concrete mixed history -/
 
 section Examples
@@ -297,3 +330,5 @@ end Rustbus.Rpc
 #print axioms Rustbus.Rpc.no_panic
 #print axioms Rustbus.Rpc.panic_reachable
 #print axioms Rustbus.Rpc.wait_blocked_only_when_drained
+#print axioms Rustbus.Rpc.stored_message_is_returned
+#print axioms Rustbus.Rpc.blocked_wait_means_absent
